@@ -53,6 +53,31 @@ Theorem C06_step_exact_partial : forall s pp G b0 i d, RepInv s pp G b0 ->
 Proof. exact withheld_step_exact. Qed.
 Print Assumptions C06_step_exact_partial.
 
+(* the two directions together: with no collision involved, a turn-ending action of the rule-only list is offered by
+   the repetition-checked list IF AND ONLY IF the exact rule allows it - the resulting board differs (on cells) from
+   the turn's starting board and the resulting position occurred at most once among the exact turn-start positions
+   since the last capture (by C06_forget: in the whole game) *)
+Theorem C06_exact_rule : forall G b0 nb sd, exact_allowed G b0 nb sd <->
+  (~ beq nb b0 /\ (length (filter (fun x => peqb x (nb, sd)) G) <= 1)%nat).
+Proof. intros. reflexivity. Qed.
+Print Assumptions C06_exact_rule.
+
+Theorem C06_peqb : forall x y, peqb x y = true <-> peq x y.
+Proof. intros x y. split; [apply peqb_peq|apply peqb_true]. Qed.
+Print Assumptions C06_peqb.
+
+Theorem C06_pass_iff : forall s pp G b0, RepInv s pp G b0 -> NoCollisionAt s G b0 (board s) -> In Pass (valid_actions_no_rep s) ->
+  (In Pass (valid_actions s) <-> exact_allowed G b0 (board s) (negb (side s))).
+Proof. exact pass_offered_iff. Qed.
+Print Assumptions C06_pass_iff.
+
+Theorem C06_fourth_step_iff : forall s pp G b0 i d, RepInv s pp G b0 ->
+  let nb := board (take_action s (Move i d)) in
+  NoCollisionAt s G b0 nb -> In (Move i d) (valid_actions_no_rep s) -> step_of pp = 3 -> trapped pp = false ->
+  (In (Move i d) (valid_actions s) <-> exact_allowed G b0 nb (negb (side s))).
+Proof. exact fourth_step_offered_iff. Qed.
+Print Assumptions C06_fourth_step_iff.
+
 (* after a capture earlier in the turn no fourth step is withheld (no earlier position can recur: C06_forget) *)
 Theorem C06_capture_turn : forall s pp i d, PlayInv s pp -> trapped pp = true ->
   In (Move i d) (valid_actions_no_rep s) -> In (Move i d) (valid_actions s).
